@@ -224,3 +224,69 @@ Proof.
   rewrite Rabs_R1.
   repeat split; try lra; try (left; reflexivity); right; lra.
 Qed.
+
+(* without the band guard: whenever planeParamsFromPoints answers, it answers
+   +-1/|n| times (n, n.p1) -- the locus is always the plane through the points,
+   only the orientation depends on the thresholds *)
+Lemma orient_plane_locus n p1 l :
+  orient_plane RS n p1 = Ok l ->
+  0 < mag2 RS n /\
+  exists k, (k = 1 / mag RS n \/ k = - (1 / mag RS n)) /\
+    l = scale4 k (vx n, vy n, vz n, scal RS n p1).
+Proof.
+  destruct n as [[A B] C], p1 as [[x1 y1] z1].
+  unfold orient_plane.
+  destruct (sleb RS (mag2 RS (A, B, C)) (eps10 RS)) eqn:El; [discriminate|].
+  apply Rleb_false in El. pose proof e10_pos as H10. unfold e10 in H10.
+  set (m := mag RS (A, B, C)).
+  assert (Hpos : scal RS (renorm RS (A, B, C)) (x1, y1, z1) = 1 / m * scal RS (A, B, C) (x1, y1, z1)).
+  { unfold renorm. fold m. cbn. ring. }
+  assert (Hux : vx (renorm RS (A, B, C)) = 1 / m * A) by reflexivity.
+  assert (Huy : vy (renorm RS (A, B, C)) = 1 / m * B) by reflexivity.
+  assert (Huz : vz (renorm RS (A, B, C)) = 1 / m * C) by reflexivity.
+  cbv zeta. rewrite Hpos, Hux, Huy, Huz. cbn [vx vy vz fst snd].
+  set (D := scal RS (A, B, C) (x1, y1, z1)). clearbody m D.
+  change (sneg RS) with Ropp.
+  intros H. split; [lra|].
+  repeat match type of H with
+  | (if ?c then _ else _) = _ => destruct c
+  end; inversion H; subst;
+  [ exists (- (1 / m)) | exists (1 / m) | exists (- (1 / m)) | exists (1 / m)
+  | exists (- (1 / m)) | exists (1 / m) | exists (- (1 / m)) | exists (1 / m) ];
+  (split; [tauto|]); cbn; repeat f_equal; ring.
+Qed.
+
+Lemma p3_locus_any x1 y1 z1 x2 y2 z2 x3 y3 z3 c :
+  let p1 := (x1, y1, z1) in let p2 := (x2, y2, z2) in let p3 := (x3, y3, z3) in
+  let n := p3_normal RS p1 p2 p3 in
+  convert_card RS M_P [x1; y1; z1; x2; y2; z2; x3; y3; z3] = Ok c ->
+  exists ty prm g k, c = [((ty, prm), 1%Z)] /\ f_T4 RS ty prm = Some g /\ k <> 0 /\
+    forall q, g q = k * fM_p RS (vx n) (vy n) (vz n) (scal RS n p1) q.
+Proof.
+  intros p1 p2 p3 n Hc.
+  destruct (plane_params_from_points RS p1 p2 p3) as [l|e] eqn:Ep.
+  2:{ unfold convert_card, to_surface_mcnp, normalize_surface in Hc.
+      unfold p1, p2, p3 in Ep. rewrite Ep in Hc. discriminate. }
+  unfold plane_params_from_points in Ep. rewrite model_normal in Ep. fold n in Ep.
+  destruct (orient_plane_locus n p1 l Ep) as (Hm2 & k & Hk & Hl).
+  destruct n as [[A B] C] eqn:En. cbn [vx vy vz fst snd] in *.
+  set (D := scal RS (A, B, C) p1) in *.
+  assert (Hm : 0 < mag RS (A, B, C)) by (apply sqrt_lt_R0; exact Hm2).
+  assert (Hk0 : k <> 0).
+  { assert (0 < 1 / mag RS (A, B, C)) by (apply Rdiv_lt_0_compat; lra).
+    destruct Hk as [-> | ->]; lra. }
+  assert (Hn : (A, B, C) <> (0, 0, 0)).
+  { intros E. injection E as -> -> ->. cbn in Hm2. lra. }
+  cbn [scale4] in Hl. subst l.
+  assert (Ep' : plane_params_from_points RS (x1, y1, z1) (x2, y2, z2) (x3, y3, z3) =
+                Ok [k * A; k * B; k * C; k * D]).
+  { unfold plane_params_from_points. rewrite model_normal. fold p1 p2 p3. fold n. rewrite En. exact Ep. }
+  rewrite (p9_as_p4 _ _ _ _ _ _ _ _ _ _ _ _ _ Ep') in Hc.
+  assert (Hkn : (k * A, k * B, k * C) <> (0, 0, 0)).
+  { intros E. injection E as E1 E2 E3. apply Hn.
+    f_equal; [f_equal|]; nra. }
+  destruct (p_locus_sense (k * A) (k * B) (k * C) (k * D) Hkn) as (ty & prm & g & k' & Hout & Hg & Hk' & Hq).
+  rewrite Hc in Hout. injection Hout as ->.
+  exists ty, prm, g, (k' * k). split; [reflexivity|]. split; [exact Hg|]. split; [nra|].
+  intros [[qx qy] qz]. rewrite Hq. cbn. ring.
+Qed.
